@@ -214,6 +214,15 @@ def main(out_v, out_json):
     # the poll loop yields when the stream it polled has woken the waker it was polled with (C06)
     g.put("fq_pending_checks_woken", 1 if re.search(r"Poll::Pending => \{[^}]*streams\.insert\([^)]*\);\s*if waker\.woken\.load\([^)]*\)\s*\{[^}]*return Poll::Pending;", fqsrc, re.S) else 0, "syntax")
     g.put("fq_waker_sets_woken", 1 if re.search(r"fn wake_by_ref\(arc_self: &Arc<Self>\) \{\s*arc_self\.woken\.store\(true", fqsrc) else 0, "syntax")
+    # round-robin send (C10): the identity popped from the rotation is held by a guard that re-queues it when dropped,
+    # taken before the first await and disarmed when the peer is gone or its write failed
+    besrc = rd("src/backend.rs")
+    g.put("rr_guard_requeues_on_drop", 1 if re.search(r"impl Drop for Requeue<'_> \{\s*fn drop\(&mut self\) \{\s*if let Some\(peer_id\) = self\.peer_id\.take\(\) \{\s*self\.queue\.push\(peer_id\);", besrc) else 0, "syntax")
+    rrb = fn_body(besrc, r"pub\(crate\) async fn send_round_robin\(")
+    g.put("rr_guard_before_await", 1 if rrb and re.search(r"let mut turn = Requeue \{\s*queue: &self\.round_robin,\s*peer_id: Some\(next_peer_id\.clone\(\)\),\s*\};", rrb)
+          and ".await" not in rrb[:rrb.find("let mut turn = Requeue")] else 0, "syntax")
+    g.put("rr_guard_disarmed_on_error", 1 if rrb and re.search(r"Err\(e\) => \{\s*turn\.peer_id = None;\s*self\.peer_disconnected\(&next_peer_id\);", rrb)
+          and re.search(r"None => \{\s*turn\.peer_id = None;\s*continue;", rrb) else 0, "syntax")
     clr = fn_body(fqsrc, r"pub fn clear\(&mut self\)")
     g.put("queue_clear_drops_streams", 1 if clr and re.search(r"self\.streams\.clear\(\)", clr) else 0, "syntax")
     drops = 0
